@@ -393,3 +393,37 @@ def r04f(R):
 def r04g(R):
     from .c12 import lookup_checks, VMDISC
     lookup_checks(R, (VMDISC,))
+
+
+@rule('R04.h', ('C04',), 'the loop variable is given its first value only '
+      'after every bound of the range has been evaluated', floor=2,
+      decides='`from a to b` uses the values a and b have when the loop is '
+              'entered - also when b mentions the loop variable itself '
+              '(`repeat with n from 1 to n`)')
+def r04h(R):
+    A = R.A
+    n_sites = 0
+    for f in A.repo.all_functions(LOOP):
+        cfg = A.cfg(f)
+        for call, ops in A.emission_sites(f):
+            dests = [args[1] for op, args in ops
+                     if op in ('MOVE', 'MOVEQ') and len(args) > 1]
+            if not any(self_attr(d) == '_index_var' for d in dests):
+                continue
+            n_sites += 1
+            for n in A.node_of_call(f, call):
+                later = [m for m in cfg.nodes for c in m.calls()
+                         if isinstance(c.func, ast.Attribute)
+                         and c.func.attr in ('rvalue', '_rvalue')]
+                p = cfg.find_path([m for m, _l in n.succs],
+                                  lambda m: m in later)
+                R.check(f, call, p is None,
+                        'the loop variable is assigned before a bound of the '
+                        'range is evaluated (%s follows): a bound that mentions '
+                        'the loop variable sees the start value instead of the '
+                        'value the variable had on entry - wrong count, wrong '
+                        'spread' % (norm(p[-1].ast)[:50] if p else ''),
+                        path=path_text(p) if p else None, line=call.lineno)
+    if n_sites < 2:
+        raise AnalysisError('R04.h: only %d assignments of the loop variable '
+                            'found' % n_sites)
